@@ -13,14 +13,17 @@ use crate::trace::{DeliverExpect, Step};
 
 pub struct Plan {
     pub runs: u64,
+    /// runs 0..seed_runs are the command-byte table and the per-seed single-fault passes;
+    /// runs seed_runs.. are robustness sessions (the C04 workload) judged by the status set only
+    pub seed_runs: u64,
     pub sequences_per_run: usize,
 }
 
 pub fn plan(tier: &str) -> Plan {
     match tier {
-        "thorough" => Plan { runs: 1 + 6 * 2002, sequences_per_run: 160 },
-        "selfcheck" => Plan { runs: 1 + 6 * 2002, sequences_per_run: 40 },
-        _ => Plan { runs: 1 + 6 * 130, sequences_per_run: 120 },
+        "thorough" => Plan { runs: 1 + 6 * 2002 + 200_000, seed_runs: 1 + 6 * 2002, sequences_per_run: 160 },
+        "selfcheck" => Plan { runs: 1 + 6 * 2002 + 200_000, seed_runs: 1 + 6 * 2002, sequences_per_run: 40 },
+        _ => Plan { runs: 1 + 6 * 130 + 8_000, seed_runs: 1 + 6 * 130, sequences_per_run: 120 },
     }
 }
 
@@ -184,6 +187,23 @@ fn sequences(sm: &SeedMsg, rng: &mut Rng, n: usize, prev: &[u8]) -> Vec<Step> {
 
 pub fn gen(seed: u64, run: u64, tier: &str) -> Vec<Step> {
     let p = plan(tier);
+    if run >= p.seed_runs {
+        // "the status observed on every rejected input of the robustness runs must lie in the
+        // three-element set": the C04 workload, judged here by its rejection statuses only
+        return crate::c04::gen(seed, run - p.seed_runs + 1_000_003, "quick")
+            .into_iter()
+            .filter_map(|st| match st {
+                Step::Deliver { delivered, class, desc, .. } if !class.starts_with("sweep") => Some(Step::Deliver {
+                    delivered,
+                    expect: DeliverExpect::Fault(Expect::StatusSet { lacks_required: false }),
+                    class: "robustness".into(),
+                    site: class,
+                    desc,
+                }),
+                _ => None,
+            })
+            .collect();
+    }
     let mut rng = Rng::new(seed, run, 2);
     if run == 0 {
         // command-byte table with four payload kinds per byte
@@ -218,6 +238,18 @@ pub fn account(step: &Step, outcome: &str, stats: &mut Stats) {
         stats.outcome(&outcome[..outcome.find(',').unwrap_or(outcome.len())]);
         match expect {
             DeliverExpect::Precondition => {}
+            _ if class == "robustness" => {
+                for tag in site.split(',') {
+                    if let Some(k) = tag.strip_prefix("link_") {
+                        stats.fault(k);
+                    } else if let Some(k) = tag.strip_prefix("structure_") {
+                        stats.fault(&format!("structure:{}", k));
+                    }
+                }
+                if outcome.starts_with("Err") {
+                    stats.probe("robustness_rejection_status_checked");
+                }
+            }
             _ => stats.fault(class),
         }
         let cmd = delivered.first().map(|b| format!("{:02x}", b)).unwrap_or_else(|| "--".into());
